@@ -56,7 +56,7 @@ def parseRl (s : String) : Option Bool :=
   if s = "0" then some false else if s = "1" then some true else none
 
 def abstractOps : List String :=
-  ["mk", "touch", "sleep", "link", "kill", "add", "obs", "mobs", "scan", "get", "sr"]
+  ["mk", "touch", "sleep", "link", "kill", "add", "obs", "mobs", "scan", "get", "sr", "pub", "euid"]
 
 def step' (d : DSt) (ws : List String) : DSt × List String :=
   match ws with
